@@ -255,7 +255,7 @@ func VerifyUnit(prog *Program, cs *ContractSet, uc *UnitContract) *UnitResult {
 				continue
 			}
 			if en.Assumed {
-				x.trustedUsed[fmt.Sprintf("%s/post:%s is assumed, not proved (bounded stand-in): %s", uc.ID(), en.Name, en.Text)] = true
+				x.trustedUsed[fmt.Sprintf("%s/post:%s is assumed, not proved: %s", uc.ID(), en.Name, en.Text)] = true
 				continue
 			}
 			x.assert(final, x.specBool(en, final, spOut), "post", fmt.Sprintf("%s/post:%s", uc.ID(), en.Name), en.Tags, token.NoPos, en.Text)
